@@ -56,7 +56,7 @@ fn r_chunk<V: ExactSizeIterator<Item = usize>>(m: &mut RModel, n: usize, r: Opti
     }
 }
 
-// @verif family=SEQ quick=C16 thorough=C05 timeout=900 owner=C16
+// @verif family=SEQ quick=C16,C10 thorough=C05 timeout=900 owner=C16
 // @bounds kind=Range<usize> with FULLY symbolic start,end in [0,usize::MAX] (empty and inverted included); history: next_id_and_value x k (k<=2), next_chunk(n) with n arbitrary in [0,usize::MAX-4], next_id_and_value, buffered_iter(m).next() with m arbitrary in [1,usize::MAX-4] and n+m+4 not overflowing, try_get_len, skip_to_end or not, into_seq_iter (bounds of the returned range); cumulative request below usize::MAX (the wrap of the counter is known finding KF-C16-wrap)
 #[kani::proof]
 #[kani::unwind(5)]
